@@ -45,6 +45,18 @@ theorem no_close_delivers_all (valid : Bool) (caps : Nat → Nat) (c : Ctx) (act
   simp only at hok ⊢
   rw [h2, h3 hok, List.take_length, List.take_append_drop]
 
+/-- The same with the two buckets of the code spelled out: round `r` finds `lc r + 1` tokens left in
+the connection's own bucket and `gc r + 1` in the bucket shared by all connections of the shape
+(`max_global_bandwidth`), each chosen freely and independently (fill levels anywhere between empty
+and full, other connections consuming the shared one); the round writes
+`min (min (lc r + 1) (gc r + 1)) amount` bytes and skips exactly those.  Nothing is dropped. -/
+theorem no_close_delivers_all_two_buckets (valid : Bool) (lc gc : Nat → Nat) (c : Ctx) (acts : List Action)
+    (b : Bytes) (h : CtxOK c acts)
+    (hok : (shapedWrite valid (fun r => min (lc r) (gc r)) c acts b).status = .ok) :
+    (shapedWrite valid (fun r => min (lc r) (gc r)) c acts b).delivered = b ∧
+    ∀ r, min (lc r) (gc r) + 1 = min (lc r + 1) (gc r + 1) :=
+  ⟨no_close_delivers_all valid _ c acts b h hok, by intro r; omega⟩
+
 /-- The only way a shaped write is cut is a close action; a panic/fuel outcome does not exist and
 `ok` delivers everything (previous theorems), so the status is `ok` or `closed`. -/
 theorem status_ok_or_closed (valid : Bool) (caps : Nat → Nat) (c : Ctx) (acts : List Action) (b : Bytes)
